@@ -24,30 +24,36 @@ Proof.
   intros s [m|]; unfold mh_accept_guard_model, env_mh, go_MultiHandler_Accept_guard; gsolve.
 Qed.
 
-(* the guard is exactly the test under which the model's accept returns the state unchanged *)
+(* the guard is exactly the test under which the body of the model's accept returns the state unchanged; the body
+   runs under the deferred recover (third entry of the translated preamble, C17_guards_preambles) *)
 Lemma mh_accept_guard_is_models : forall vh ofp s m,
   accept vh ofp s m =
   match h_rt s with
   | Running =>
-      if mh_accept_guard_model s (Some m) then s
-      else if m_round m =? 0 then abort s (Some ([m_from m], EAbortNotice))
-      else let s1 := store s m in
-           if negb (h_cur s1 =? m_round m) then s1
-           else match (if m_bcast m then verify_bcast s1 m else verify_p2p s1 m) with
-                | VOk => finalize vh ofp (fuel_of s1) s1
-                | VBad => abort s1 (Some ([m_from m], EVerify))
-                | VHash => abort s1 (Some ([], EBroadcastHash))
-                end
+      recover_abort
+        (if mh_accept_guard_model s (Some m) then s
+         else if m_round m =? 0 then abort s (Some ([m_from m], EAbortNotice))
+         else let s1 := store s m in
+              if negb (h_cur s1 =? m_round m) then s1
+              else match (if m_bcast m then verify_bcast s1 m else verify_p2p s1 m) with
+                   | VOk => finalize vh ofp (fuel_of s1) s1
+                   | VBad => abort s1 (Some ([m_from m], EVerify))
+                   | VHash => abort s1 (Some ([], EBroadcastHash))
+                   | VPanic => raise_panic s1
+                   end)
   | _ => s
   end.
-Proof. intros. unfold accept, mh_accept_guard_model, is_some. destruct (h_rt s), (h_err s); reflexivity. Qed.
+Proof.
+  intros. unfold accept, accept_body, mh_accept_guard_model, is_some. destruct (h_rt s), (h_err s); reflexivity.
+Qed.
 
 Lemma mh_accept_early_return : forall vh ofp s m,
   geval (alookup (env_mh s (Some m))) go_MultiHandler_Accept_guard = Some true -> accept vh ofp s m = s.
 Proof.
   intros vh ofp s m H.
   assert (G : mh_accept_guard_model s (Some m) = true) by (rewrite mh_accept_guard in H; congruence).
-  rewrite mh_accept_guard_is_models, G. destruct (h_rt s); reflexivity.
+  rewrite mh_accept_guard_is_models, G. destruct (h_rt s) eqn:Hr; try reflexivity.
+  unfold recover_abort. rewrite Hr. reflexivity.
 Qed.
 
 Lemma mh_duplicate : forall s m,
